@@ -1035,3 +1035,6 @@ Proof. vm_compute. reflexivity. Qed.
 Lemma memo_stale_after_rejected_decode : exists n ops,
   let a := run (new_archive n) ops in snd (encoding a) <> encode_words (a_words a).
 Proof. exists 65, [OpEncode; OpDecode "1:zz"; OpEncode]. vm_compute. discriminate. Qed.
+
+Lemma build_packing : forall bs, build bs = Ok (of_bits bs) /\ wf (of_bits bs) /\ bits (of_bits bs) = bs.
+Proof. intro bs. exact (conj (build_is_of_bits bs) (of_bits_wf_bits bs)). Qed.
